@@ -74,7 +74,18 @@ func c28Exec(c *c28Case, variant int) {
 		lexer += fmt.Sprintf("%s: /%c/\n", s, pat)
 		pat++
 	}
+	explicit := variant == 3 && !quoted(b) && len(c.WouldBe[0]) > 0
 	switch {
+	case explicit:
+		// the second terminal declares the first one's identifier explicitly: "b (ID): /q/"
+		decl(a)
+		lexer += fmt.Sprintf("%s (%s): /%c/\n", b, fromCPs(c.WouldBe[0]), pat)
+		c.WouldBe[1] = c.WouldBe[0]
+		c.Roles[1] = "term-explicit-id"
+		parser = fmt.Sprintf("%%input start;\nstart: %s %s ;\n", a, b)
+		if a == b {
+			c.DistinctNames = false
+		}
 	case aNonterm:
 		decl("tok")
 		parser = fmt.Sprintf("%%input %s;\n%s: tok %s | tok ;\n%s: tok tok ;\n", a, a, b, b)
@@ -126,7 +137,7 @@ func c28Run(args []string) error {
 	for i := range cases {
 		variants := 1
 		if cases[i].Kind == "pair" {
-			variants = 3
+			variants = 4
 		}
 		for v := 0; v < variants; v++ {
 			c := cases[i]
